@@ -173,6 +173,27 @@ def run(args):
             R.count(f"layout-depth-{depth}{'-padded' if int(np.prod(ls)) > nsteps else ''}")
             if ck.shape != eager.shape or not np.allclose(ck, eager, **tol):
                 R.spec_fail(dict(kind="checkpoint-layout-changes-recordings"), f"checkpoint_lengths={ls} ({nsteps} steps) changes the recordings", dict(layout=ls, **inp), None)
+        # execution HISTORY: a layout that was already used in this process is used again with another stimulus and other
+        # parameters; the result must be that of a fresh un-checkpointed run with those inputs (nothing may be remembered
+        # from the earlier execution)
+        for depth in (2, 3):
+            ls = [int(rng.integers(2, 5)) for _ in range(depth - 1)]
+            ls.append(-(-nsteps // int(np.prod(ls))) + int(rng.integers(0, 2)))
+            first = np.asarray(sim(1.0, ck=ls)); R.evaluations += 1
+            r_old = mod.nodes["radius"].to_numpy().copy()
+            mod.set("radius", r_old * float(rng.uniform(1.3, 2.0)))
+            amp2 = float(rng.uniform(0.3, 0.8))
+            try:
+                ref2 = np.asarray(sim(amp2)); again2 = np.asarray(sim(amp2, ck=ls)); R.evaluations += 1
+                R.count(f"history-layout-depth-{depth}")
+                if not np.allclose(first, eager, **tol):
+                    R.spec_fail(dict(kind="checkpoint-layout-changes-recordings"), f"checkpoint_lengths={ls} ({nsteps} steps) changes the recordings", dict(layout=ls, **inp), None)
+                if again2.shape != ref2.shape or not np.allclose(again2, ref2, **tol):
+                    R.spec_fail(dict(kind="result-depends-on-earlier-execution"),
+                                f"second run with checkpoint_lengths={ls} (other stimulus, other radii) differs from the un-checkpointed run of the same inputs by "
+                                f"{float(np.max(np.abs(again2 - ref2))):.3g}", dict(layout=ls, amp2=amp2, **inp), None)
+            finally:
+                mod.set("radius", r_old)
         if len(R.samples) < 2:
             R.samples.append(dict(module=desc, backend=backend, nsteps=nsteps))
     R.explanation = ("nested_scan_eq_scan and recs_checkpoint_invariant are theorems for every layout/depth; jit, vmap and the absence of side "
